@@ -380,6 +380,12 @@ def structFieldValidators (field : String) (sch : NodeF Schema) : Nat â†’ GoTy â
         let c : NumCheck := { mult := sch.multipleOf, lo := sch.minimum, hi := sch.maximum,
                               xlo := sch.xmin, xhi := sch.xmax, roundToInt := isInt }
         if sch.multipleOf.isSome && !isInt then addImport "math"
+        -- an integer bound literal outside the field type's range does not compile (constant overflow)
+        (match ty with
+         | .int k =>
+           let fits (b : Option Rat) : Bool := match b with | some q => k.inRangeB (truncRat q) | none => true
+           if !(fits (normLo sch.minimum sch.xmin).1 && fits (normHi sch.maximum sch.xmax).1) then issue "int-literal-overflow" else pure ()
+         | _ => pure ())
         if c.emitsSomething then pure [.numeric field nillable c] else pure []
     | .slice _ => pure (arrayLoop ty 0 (f + 1))
     | _ => pure []
